@@ -675,11 +675,9 @@ def _ce_native(c, p):
             trace.append(('bindown', t if (g, s) == ('grid%d' % t, 'native%d' % t) else 'wrong arguments'))
             return None, 'binned%d' % t, None, None
     real = tm.OnlineVariance
-    tm.OnlineVariance = _OV
-    try:
+    from pyvc.unit import patched
+    with patched(real, _OV):
         r = m.compute_error(samples, wngrid=obs, binner=_B() if binned else None)
-    finally:
-        tm.OnlineVariance = real
     return r, dict(p, __trace__=trace)
 
 
@@ -752,11 +750,9 @@ def _sp_native(c, p):
     o = _O.__new__(_O)
     o._sigma_fraction = 0.5
     saved = uu.random_int_iter
-    uu.random_int_iter = lambda total, fraction: iter(list(picks))
-    try:
+    from pyvc.unit import patched
+    with patched(saved, lambda total, fraction: iter(list(picks))):
         vals = [(np.array(row, dtype=float), float(w)) for row, w in o.sample_parameters(0)]
-    finally:
-        uu.random_int_iter = saved
     return GenTrace(vals, [p] * len(vals)), p
 
 
